@@ -179,6 +179,9 @@ def gen_cases(tier, seed):
                                             trim=([trim_a, trim_b, trim_a][k] if tess == 'trim' else None)) for k in range(n)]
                             cases.append(dict(kind='container', members=members, n=[nu, nv], spacing=s, tess=tess, pretess=pretess,
                                               update_delta=ud, formats=EXPORT_FORMATS))
+                            if n >= 2 and pretess and ud and tess == 'tri':
+                                cases.append(dict(kind='container', members=members, n=[nu, nv], spacing=s, tess=tess, pretess=True,
+                                                  update_delta=ud, formats=EXPORT_FORMATS[:1], retess=True))
                             if n >= 2 and pretess and ud and s == 1:
                                 # the same, with the tessellation component assigned through the container
                                 cases.append(dict(kind='container', members=members, n=[nu, nv], spacing=s, tess=tess, pretess=True,
@@ -866,7 +869,15 @@ def _container_case(case, ctx):
     only = case.get('formats', EXPORT_FORMATS)
     if case['pretess'] and not case.get('skip_mesh'):
         cont, surfs = _make_container(case, seed)
-        if not _tessellate(ctx, 'C15.container.tessellates', lambda: cont.tessellate(vertex_spacing=s), case, feats):
+        def _tess_container():
+            if case.get('retess'):
+                # documented keywords: delta=False keeps the elements' own sampling, force=True re-tessellates
+                cont.tessellate(vertex_spacing=s, delta=False)
+                _ = cont.vertices, cont.faces
+                cont.tessellate(vertex_spacing=s, delta=False, force=True)
+            else:
+                cont.tessellate(vertex_spacing=s)
+        if not _tessellate(ctx, 'C15.container.tessellates', _tess_container, case, feats):
             return
         verts, faces = list(cont.vertices), list(cont.faces)
         ids = [v.id for v in verts]
